@@ -202,7 +202,7 @@ func usedSyms(ts ...string) map[string]bool {
 	return m
 }
 
-var baseSyms = map[string]bool{"objkind": true, "objowner": true, "strlen": true, "wraps": true}
+var baseSyms = map[string]bool{"ix": false, "objkind": true, "objowner": true, "strlen": true, "wraps": true}
 
 var declNameRe = regexp.MustCompile(`^\((?:declare-const|declare-fun|define-fun)\s+(\|[^|]*\||\S+)`)
 
